@@ -19,7 +19,7 @@ from __future__ import annotations
 
 import z3
 
-from pyvc.values import SV, CV, XV, PV, B, I, R, EngineError, to_z, real, arith, compare, logic, ite, ssqrt
+from pyvc.values import SV, CV, XV, PV, B, I, R, EngineError, to_z, real, arith, compare, logic, ite, ssqrt, Opaque
 from pyvc.containers import PDict
 from pyvc.arrays import Table, Mat, Space, Arr, subst
 from pyvc.interp import Native, PyRaise
@@ -64,6 +64,9 @@ def _setup(it, ac=True, trafo_loading="current"):
             pm.colfun(branch, seg, c, I)
     for c in (iu.VM, iu.VA, iu.BASE_KV):
         pm.colfun(bus, "all", c, R)
+    if not ac:
+        # precondition of the result routines in a DC calculation, established by _extract_results (run_extract): |V| = 1 p.u.
+        bus.cols[("all", iu.VM)] = SV(z3.RealVal(1))
     ppc = PDict({"branch": branch, "bus": bus, "baseMVA": real("baseMVA")})
     line = pm.table("line", {"max_i_ka": R, "df": R, "parallel": R, "length_km": R})
     trafo = pm.table("trafo", {"vn_hv_kv": R, "vn_lv_kv": R, "sn_mva": R, "parallel": R, "df": R})
@@ -109,6 +112,17 @@ def run(vc):
              "numpy element-wise / broadcasting semantics, np.max(axis) over a constant number of columns (A-NUMPY)")
     vc.assume_std("A-REAL", "A-GENERIC", "A-LOOKUP", "A-NUMPY")
     run_results(vc)
+    run_extract(vc)
+    if not hasattr(vc, "native_standins"):
+        vc.native_standins = []
+    vc.native_standins.append(dict(
+        name="branch results against independent element models on fixed networks",
+        bound="example_multivoltage and a 5-bus network with a heavily loaded three-winding transformer (4 option sets each: trafo_model t/pi, "
+              "trafo_loading current/power); the same transformer with its lv bus out of service; one DC power flow with voltage set points "
+              "1.06 / 1.05 (currents, loadings, res_bus.vm_pu)",
+        script="import sys\nfrom replaylib.branchmodel import main, main_more\n"
+               "for f in (main, main_more):\n    try:\n        f()\n    except SystemExit as e:\n        if e.code:\n            raise\n",
+        timeout=900))
     from contracts import C02_build, C02_trafo
     C02_build.run(vc)
     C02_trafo.run(vc)
@@ -230,6 +244,51 @@ def run_results(vc):
         vc.explore(f"_get_impedance_results[{'ac' if ac else 'dc'}]", h_imp, max_paths=20)
 
 
+def run_extract(vc):
+    """_extract_results hands a ppc to the result routines in which, for a DC calculation, every bus in service has |V| = 1 p.u. (the DC
+    model; the ppc of a DC calculation still carries the set points of ext_grid / gen buses in VM) -- the precondition under which the
+    DC results above are the documented ones."""
+    RS = "pandapower.results"
+    iu = consts("pandapower.pypower.idx_bus")
+    for ac in (True, False):
+        def h(p, ac=ac):
+            bus = pm.bus_mat()
+            sp = bus.segments["all"]
+            vm0 = XV(SV(z3.Function("VM0", I, R)(sp.i)), z3.Function("VM0.isnan", I, B)(sp.i))
+            bus.cols[("all", iu.VM)] = vm0
+            ppc = PDict({"bus": bus})
+            seen = []
+            me = p.it.modenv(RS)
+            readers = ("_get_bus_v_results", "_get_p_q_results", "_get_shunt_results", "_get_branch_results", "_get_gen_results", "_get_bus_results")
+            for nm in ("_set_buses_out_of_service", "_set_dc_buses_out_of_service", "_get_aranged_lookup", "_get_bus_dc_v_results", "_get_p_dc_results",
+                       "_get_dc_slack_results", "_get_bus_dc_results", "_get_b2b_vsc_results", "_get_costs", "_remove_costs") + readers:
+                def f(it, *a, _nm=nm, **k):
+                    if _nm in readers:
+                        seen.append((_nm, bus.get("all", iu.VM)))
+                    return Opaque(_nm)
+                me.vals[nm] = Native(f, name=nm, pure=False)
+            net = netmodel.Net({"_options": PDict({"ac": ac, "mode": "pf"})}, strict=True)
+            out = p.call(f"{RS}:_extract_results", net, ppc)
+            if out.raised:
+                raise EngineError(f"_extract_results raised {out.exc!r}")
+            p.prove(f"extract[{'ac' if ac else 'dc'}]: every result routine is called", sorted(n for n, _ in seen) == sorted(readers),
+                    meta=dict(part="extract"))
+            for nm, vm in seen:
+                vm = vm if isinstance(vm, XV) else XV(vm, False)
+                nan = _flag(vm.nan)
+                if ac:
+                    p.prove(f"extract[ac]: {nm} sees the solved voltage magnitudes", z3.And(nan == _flag(vm0.nan), z3.Implies(z3.Not(nan), to_z(vm.v, R) == to_z(vm0.v, R))),
+                            meta=dict(part="extract"))
+                else:
+                    p.prove(f"extract[dc]: {nm} sees |V| = 1 p.u. at every bus in service", z3.And(nan == _flag(vm0.nan), z3.Implies(z3.Not(nan), to_z(vm.v, R) == 1)),
+                            meta=dict(part="extract"), note="DC model: voltage magnitudes 1 p.u.; buses out of service keep NaN")
+        vc.explore(f"_extract_results[{'ac' if ac else 'dc'}]", h, max_paths=10)
+
+
+def _flag(x):
+    return x if z3.is_expr(x) else z3.BoolVal(bool(x))
+
+
 def classify(ob, model):
     return ob.meta.get("label", ob.id).split("[")[0]
 
@@ -238,6 +297,9 @@ def replay(ob, model, finding=None):
     if ob.meta.get("part") == "pfsoln-choice":
         from contracts import C01
         return C01.replay(ob, model, finding)
+    if ob.meta.get("part") == "extract":
+        return {"script": f"# replay of {ob.id}\nfrom replaylib.branchmodel import main_more\nmain_more()\n",
+                "description": "DC power flow with voltage set points != 1 p.u.: currents, loadings and bus voltages against the DC model"}
     lab = ob.meta.get("label", "")
     script = f"""# replay of {ob.id}
 # oracle (C02): reported branch results vs. an independent implementation of the documented element models on the solved voltages
